@@ -423,6 +423,9 @@ class OutgoingBallsHandler(BallDeviceStateHandler):
             incoming_ball_at_target = self._add_incoming_ball_to_target(eject_request.target)
             result = await self._handle_confirm(eject_request, ball_eject_process, incoming_ball_at_target,
                                                 eject_try)
+            # leave ball_left/failed_confirm before the count is adjusted. BallDevice.balls subtracts the ejected
+            # ball in those states and would count it twice (e.g. report -1 balls) once end_eject subtracted it
+            self.ball_device.set_eject_state("eject_confirmed" if result else "ejecting")
             await self.ball_device.ball_count_handler.end_eject(ball_eject_process, result)
 
             # Check if more balls left than expected, meaning the ejector kicked out multiple
